@@ -38,7 +38,7 @@ META = {
     "engine": "wire",
 }
 RULE = ("a case is (stream over a 4-symbol or random alphabet, <=8 read requests of the six kinds with sizes around "
-        "1/delimiter/chunk/2K/4K boundaries, arrival cuts, A/R interleaving, read_from_fd plan, read_chunk_size, "
+        "1/delimiter/chunk/2K/4K boundaries and max_bytes from 0 upwards, arrival cuts, A/R interleaving, read_from_fd plan, read_chunk_size, "
         "max_buffer_size, eof); non-trivial = >=3 reads judged, >=2 kinds, >=2 arrivals; distinct by the whole case; "
         "plus all 2^(L-1) arrival patterns of short streams under eager and lazy request issue")
 FLOORS = {"quick": 1200, "thorough": 100000}
@@ -48,7 +48,7 @@ ASSUMPTIONS = [
     "regex requests use arrival-independent patterns; greedy patterns only checked for prefix/ends-at-match",
     "max_buffer_size closures and reads after the first failed read are UNSPECIFIED beyond contract conformance of returned data",
 ]
-REQUIRED_COUNTERS = ["oracle_evals", "reads_data", "reads_failed", "unsat_expected", "eof_settled",
+REQUIRED_COUNTERS = ["oracle_evals", "reads_data", "reads_failed", "unsat_expected", "unsat_expected_max_bytes_0", "eof_settled",
                      "kind:bytes", "kind:bytes_partial", "kind:into", "kind:into_partial", "kind:until",
                      "kind:until_max", "kind:regex", "kind:regex_max", "kind:close", "inline_completions",
                      "event_completions"]
@@ -116,12 +116,14 @@ def pick_regex(rng, S, c, alpha):
     return ("greedy", rng.choice(GREEDY))
 
 
-def pick_max(rng, m, rem, chunk):
+def pick_max(rng, m, rem, chunk, dlen=1):
+    """max_bytes around every boundary, including the smallest legal values: 0 (no delimiter fits: the read can only
+    close the stream once a byte is there), and one less than / exactly the delimiter's own length."""
     ch = chunk or 65536
-    cands = [1, 2, 16, 64, ch - 1, ch, ch + 1, rem, rem + 1, max(1, rem - 1), max(1, rem // 2)]
+    cands = [0, 1, 2, dlen - 1, dlen, 16, 64, ch - 1, ch, ch + 1, rem, rem + 1, max(1, rem - 1), max(1, rem // 2)]
     if m is not None:
-        cands += [m, m, m + 1, m + 1, max(1, m - 1), max(1, m - 1), m + 5, max(1, m - 5)]
-    return max(1, rng.choice(cands))
+        cands += [m, m, m + 1, m + 1, m - 1, m - 1, m + 5, max(0, m - 5)]
+    return max(0, rng.choice(cands))
 
 
 def gen_reqs(rng, S, alpha, nreq, chunk):
@@ -144,7 +146,7 @@ def gen_reqs(rng, S, alpha, nreq, chunk):
         elif k in ("until", "untilm"):
             d = pick_delim(rng, S, c, alpha)
             m = M.first_match_end(("until", d, None), S[c:])
-            req = ("until", d, pick_max(rng, m, rem, chunk) if k == "untilm" else None)
+            req = ("until", d, pick_max(rng, m, rem, chunk, len(d)) if k == "untilm" else None)
         elif k in ("regex", "regexm"):
             rx = pick_regex(rng, S, c, alpha)
             if rx[0] == "greedy":
@@ -321,6 +323,19 @@ def directed_cases():
     # first delimiter ends exactly at / one past max_bytes
     yield {"S": b"aaaa\r\naaaa\r\n", "reqs": [("until", b"\r\n", 6), ("until", b"\r\n", 5)],
            "cuts": [3, 9], "sched": "RARA", "plan": None, "chunk": 16, "maxbuf": None, "eof": True}
+    # max_bytes=0 is a limit like any other: no delimiter fits, so the first byte makes the read unsatisfiable
+    # (issued before the bytes arrive / with the bytes already buffered behind an earlier read / regex / delimiter
+    # at the very front of the stream)
+    yield {"S": b"ab\r\nab", "reqs": [("until", b"\r\n", 0)],
+           "cuts": [2, 4], "sched": "RAA", "plan": None, "chunk": 16, "maxbuf": None, "eof": True}
+    yield {"S": b"ab\r\nab", "reqs": [("bytes", 1, False), ("until", b"\r\n", 0)],
+           "cuts": [6], "sched": "ARR", "plan": None, "chunk": 16, "maxbuf": None, "eof": False}
+    yield {"S": b"\nabc", "reqs": [("regex", ("alt", (b"\n",)), 0)],
+           "cuts": [4], "sched": "AR", "plan": None, "chunk": 64, "maxbuf": None, "eof": False}
+    yield {"S": b"\r\n\r\nab", "reqs": [("regex", ("http",), 0)],
+           "cuts": [1, 5], "sched": "RAA", "plan": ["one"], "chunk": None, "maxbuf": None, "eof": True}
+    yield {"S": b"a\r\nb", "reqs": [("until", b"\r\n", 1), ("bytes", 1, False)],
+           "cuts": [4], "sched": "ARR", "plan": None, "chunk": 16, "maxbuf": None, "eof": True}
 
 
 # --------------------------------------------------------------------------
@@ -466,6 +481,8 @@ class Run:
                 self.ctx.count("unspecified_post_failure_reads_failed")
             elif exp[0] == "unsat":
                 self.ctx.count("unsat_expected")
+                if req[2] == 0:
+                    self.ctx.count("unsat_expected_max_bytes_0")
                 if not p["closed_at_issue"] and not isinstance(e.real_error, UnsatisfiableReadError):
                     self.bad(f"{kind}/unsat-real-error", "max_bytes closure does not carry UnsatisfiableReadError",
                              {"req": req, "real_error": repr(e.real_error)})
